@@ -325,6 +325,21 @@ Theorem C07_timing : forall (cell : option RV) (mass : nat -> R) (cv : colvar) (
 Proof. exact thm_timing. Qed.
 Print Assumptions C07_timing.
 
+(* parameters changed between two steps (temperature by the engine or `cv targettemperature`, subtractAppliedForce / hideJacobian by script,\n   component flags or coefficients): cv1 = the variable as configured at step t-1, cv2 at step t, any state before.  The Jacobian term of the report\n   is the one computed at t-1 with the temperature of t-1, the force subtracted is the one applied at t-1 (recorded at every step), the\n   forces of t-1 are combined with the component coefficients of t-1 (fix-C07-6); only the flags subtract / hide are those of step t *)
+Theorem C07_timing_parameter_change : forall (cell : option RV) (mass : nat -> R) (cv1 cv2 : colvar) (inc : bool) (s0 : estate) (i1 i2 : einput),
+  cv_samestep cv2 = false ->
+  o_ft (snd (eng_step Rops PI cell mass cv2 inc (fst (eng_step Rops PI cell mass cv1 inc s0 i1)) i2)) =
+    cv_proj Rops PI cell mass (e_pos i1) cv1
+      (if inc then fadd Rops (e_force i1)
+                   (if e_apply i1 then cv_apply Rops PI cell mass (e_pos i1) cv1
+                                         (applied_force Rops cv1 (e_apply i1) (e_fb i1) (cv_fj Rops PI cell mass (e_pos i1) cv1))
+                    else fzero Rops)
+       else e_force i1)
+    + (if adds_fj cv2 (cv_hide cv1 && e_apply i1) then cv_fj Rops PI cell mass (e_pos i1) cv1 else 0)
+    - (if cv_subtract cv2 then applied_force Rops cv1 (e_apply i1) (e_fb i1) (cv_fj Rops PI cell mass (e_pos i1) cv1) else 0).
+Proof. exact thm_timing_parameter_change. Qed.
+Print Assumptions C07_timing_parameter_change.
+
 (* same-step convention: the report of step t is about step t alone (no applied force is subtracted) *)
 Theorem C07_timing_same_step : forall (cell : option RV) (mass : nat -> R) (cv : colvar) (inc : bool) (i : einput),
   cv_samestep cv = true -> forall (pre : list einput) (s : estate),
